@@ -299,7 +299,7 @@ def skipguard(rep, ctx, sfx):
             if ta is None or tn is None or norm(ta) != ("ok",) or norm(tn) == ("ok",):
                 r.violation(key, where(sfn["body"]), "the VM skips implicit whitespace without testing that "
                             "atomicity is NonAtomic: atomic rules would skip WHITESPACE/COMMENT")
-    gmac = [m for m in ctx.macros[c02.GENFILE] if m["macro"] == "generate_rule" and m["fn"] == "generate_skip"]
+    gmac = [m for m in ctx.macros[c02.GENFILE] if m["macro"] == "generate_rule" and m["fn"] == c02.gen_name(ctx.gen, "generate_skip")]
     for m in gmac:
         if len(m.get("args", [])) != 2:
             continue
